@@ -86,6 +86,18 @@ def mutants_of(func: ast.AST):
                     yield n, n.args[0], f"unwrap {n.func.value.id}.{n.func.attr}()"
                 elif not (isinstance(n.func.value, ast.Name) and n.func.value.id in ("np", "numpy", "pd")):
                     yield n, n.func.value, f"drop .{n.func.attr}()"
+        elif isinstance(n, ast.Dict) and len(n.values) >= 2 and all(k is not None for k in n.keys):
+            for i in range(len(n.values) - 1):
+                vals = list(n.values)
+                vals[i], vals[i + 1] = vals[i + 1], vals[i]
+                yield n, ast.Dict(n.keys, vals), f"swap dict values {i},{i + 1}"
+        elif isinstance(n, (ast.List, ast.Tuple)) and len(n.elts) >= 2 and isinstance(getattr(n, "ctx", ast.Load()), ast.Load) \
+                and all(isinstance(e, ast.Constant) for e in n.elts):
+            for i in range(len(n.elts) - 1):
+                el = list(n.elts)
+                el[i], el[i + 1] = el[i + 1], el[i]
+                yield n, type(n)(el, ast.Load()), f"swap elements {i},{i + 1}"
+            yield n, type(n)(list(n.elts[:-1]), ast.Load()), "drop last element"
         elif isinstance(n, (ast.If, ast.While)):
             yield n.test, ast.UnaryOp(ast.Not(), n.test), f"negate {type(n).__name__.lower()} test"
         elif isinstance(n, ast.IfExp):
@@ -183,6 +195,12 @@ def run_mutant(job):
     return code, first
 
 
+def module_level(tree: ast.Module) -> ast.Module:
+    """the module's own statements (assignments of constants / tables), without function and class bodies"""
+    keep = [st for st in tree.body if isinstance(st, (ast.Assign, ast.AnnAssign, ast.AugAssign)) ]
+    return ast.Module(body=keep, type_ignores=[])
+
+
 def mutants_for_functions(root, fqs):
     """[(rel, qualname, line, desc, old, new, mutated source)] for the functions `module:qualname` in fqs"""
     bymod = {}
@@ -196,7 +214,9 @@ def mutants_for_functions(root, fqs):
             if not os.path.exists(os.path.join(root, rel)):
                 continue
         src = open(os.path.join(root, rel)).read()
-        fns = functions_in(ast.parse(src))
+        tree_ = ast.parse(src)
+        fns = functions_in(tree_)
+        fns["<module>"] = module_level(tree_)
         for fq in sorted(lst):
             q = fq.split(":")[1]
             if q not in fns:
